@@ -28,10 +28,11 @@ type Ev struct {
 	//  req-snap req-chunk                    request received by liar P
 	//  sp-call sp-ret                        state provider
 	//  offer-call offer-ret apply-call apply-ret info-call info-ret
-	//  peer-stop cut bootstrap note
+	//  peer-stop peer-reconnect cut bootstrap note
 	P       int      `json:"p"`           // liar index, -1 if none
 	C       int      `json:"c"`           // call number of its kind (app / provider), -1 if none
 	A       int      `json:"a,omitempty"` // arrival / advert id (1-based)
+	G       int      `json:"g,omitempty"` // connection generation of liar P (1 = first connection, 2 = after the first reconnect ...)
 	H       uint64   `json:"h,omitempty"`
 	F       uint32   `json:"f,omitempty"`
 	I       uint32   `json:"i,omitempty"`
